@@ -6,19 +6,19 @@ import datetime
 import re
 
 from .lib import bound, decision, guards, paths
-from .lib.mir import AnchorLost
+from .lib.mir import AnchorLost, Call
 
 CONFIGS_QUICK = ["A"]
 CONFIGS_THOROUGH = ["A", "R"]
 TECHNIQUE = ('entry-by-entry comparison of the compiled calendar tables with their defining formulae; path-min/max count of unchecked writes vs capacity on the '
              'built MIR; def-use ordering of table reads against reassignment of their index variable')
-LEVEL_TEXT = ('Decides clauses C20-a/b/c: YEAR_DELTAS (401 entries), YEAR_TO_FLAG (400) and OL_TO_MDL (733), read from the evaluated constants of the compiled crate,'
-              " equal the Gregorian-calendar formulae they stand for (leap-year counts, weekday/leap flag of 1 January under this source's own Of::weekday decoding, "
+LEVEL_TEXT = ('Decides clauses C20-a..d: YEAR_DELTAS (401 entries), YEAR_TO_FLAG (400) and OL_TO_MDL (733), read from the evaluated constants of the compiled crate, '
+              "equal the Gregorian-calendar formulae they stand for (leap-year counts, weekday/leap flag of 1 January under this source's own Of::weekday decoding, "
               "ordinal->month/day deltas from the month lengths); the weekday and month name tables equal RFC 9110's day-name/month lists in the order the index "
               'functions assume; into_imf_fixdate performs exactly 29 unchecked single-byte writes on every path into its 29-byte buffer, each followed by the index '
               'increment, and itoa at most 1+MAX pushes into a buffer of capacity 1+MAX; in the date arithmetic a calendar-table entry read for a mutable year '
-              'variable is never used after that variable was reassigned (the year borrow in Date::from_days re-reads the table). Decides these clauses, not the '
-              'day/year arithmetic or the digit extraction for all inputs.')
+              'variable is never used after that variable was reassigned (the year borrow in Date::from_days re-reads the table); no quotient or remainder is taken '
+              'of a function input that was first cast to fewer bits. Decides these clauses, not the day/year arithmetic or the digit extraction for all inputs.')
 
 
 def run(ck, progs):
@@ -30,6 +30,7 @@ def run(ck, progs):
         ck.guard("C20-b BOUND", lambda: c20b(ck, prog))
         ck.guard("C20-b BOUND", lambda: c20b_hex(ck, prog))
         ck.guard("C20-c ORDER table read", lambda: c20c(ck, prog))
+        ck.guard("C20-d ORDER reduce before truncating", lambda: c20d(ck, prog))
     ck.config = None
 
 
@@ -359,3 +360,65 @@ def c20c(ck, prog):
                   % (f.key, name, name, f.loc(f.blocks[stale[2]]["t"].get("sp")), f.loc(f.blocks[stale[0]]["t"].get("sp"))),
                   how="no assignment to `%s` between the read and the uses of the value read" % name)
     ck.floor(R, "table reads indexed by a mutable variable", n, 1)
+
+
+BITS = {"u8": 8, "i8": 8, "u16": 16, "i16": 16, "u32": 32, "i32": 32, "u64": 64, "i64": 64, "usize": 64, "isize": 64, "u128": 128, "i128": 128}
+
+
+def c20d(ck, prog):
+    """`(x as u32) % m` differs from `x % m` as soon as x needs more than 32 bits (unless m divides 2^32): in the calendar and
+    digit arithmetic a quotient/remainder is taken of the full-width value, and only its (small) result is cast down.
+    Rule: no operand of a division or remainder is a function input that was cast to fewer bits first."""
+    R = "C20-d ORDER reduce before truncating"
+    n = 0
+    for f in prog.fns.values():
+        if f.crate != "ohkami_lib" or not (f.key.startswith("ohkami_lib::time::") or f.key.startswith("ohkami_lib::num::")):
+            continue
+        narrowed = {}
+        for bi in sorted(f.live_blocks()):
+            for st in f.blocks[bi]["st"]:
+                if st["k"] == "=" and st["r"][0] == "cast" and st["r"][1] == "IntToInt" and not st["p"][1]:
+                    src = st["r"][2]
+                    sty = f.place_ty(src[1]) if src[0] in ("c", "m") else None
+                    dty = f.locals[st["p"][0]]
+                    so = f.origin(src) if src[0] in ("c", "m") else None
+                    # only an unreduced *input* (a parameter, possibly through copies): a cast of a call result
+                    # (`date.day() as u8`) is bounded by that function's range, which this rule does not know
+                    unreduced_input = bool(so) and so[-1][0] == "arg" and all(x[0] in ("via", "arg") and (x[0] == "arg" or x[1][0] == "use") for x in so)
+                    if sty in BITS and dty in BITS and BITS[dty] < BITS[sty] and unreduced_input:
+                        narrowed[st["p"][0]] = (sty, dty, st.get("sp"))
+
+        def through_copies(op):
+            for _ in range(8):
+                if op[0] not in ("c", "m") or op[1][1]:
+                    return None
+                l = op[1][0]
+                if l in narrowed:
+                    return l
+                sd = f.single_def(l)
+                if sd is None or sd[2] != "assign" or sd[3]["r"][0] != "use":
+                    return None
+                op = sd[3]["r"][1]
+            return None
+
+        sites = []
+        for bi in sorted(f.live_blocks()):
+            b = f.blocks[bi]
+            for st in b["st"]:
+                if st["k"] == "=" and st["r"][0] == "bin" and st["r"][1] in ("Rem", "Div"):
+                    sites.append((st["r"][2], st["r"][1], st.get("sp")))
+            t = b["t"]
+            if t["k"] == "call":
+                c = Call(f, bi, t, False)
+                if c.name in ("rem_euclid", "div_euclid", "checked_rem", "checked_div", "wrapping_rem", "wrapping_div") and c.args:
+                    sites.append((c.args[0], c.name, t.get("sp")))
+        for op, what, sp in sites:
+            n += 1
+            l = through_copies(op)
+            if l is not None:
+                sty, dty, csp = narrowed[l]
+                ck.ob(R, "%s:%s-of-truncated" % (f.key.split("::", 2)[2][:50], what), False, f.loc(sp),
+                      "%s takes `%s` of an input that was first cast from %s down to %s (%s): for inputs that need more than %d bits the result differs from the %s of the full value "
+                      "(e.g. seconds of the day for a timestamp >= 2^32)" % (f.key, what, sty, dty, f.loc(csp), BITS[dty], what.lower()))
+    ck.ob(R, "all-reductions-on-full-width-values", True, "", how="%d division/remainder site(s) in time.rs and num.rs, none applied to a truncated operand" % n, nontrivial=False)
+    ck.floor(R, "division/remainder sites examined", n, 20)
